@@ -615,11 +615,27 @@ impl Task for ExternalEquivalenceTask {
         let right = control_translate(theory_translate(self.program));
 
         // TODO: Warn when a conflict between private predicates is encountered
-        // TODO: Check if renaming creates new conflicts
         let right = right.rename_predicates(
             &specification_private_predicates
                 .intersection(&program_private_predicates)
-                .map(|p| (p.clone(), "p".to_string()))
+                .map(|p| {
+                    // the new name must not be a predicate of either side or a public predicate
+                    let mut extension = "p".to_string();
+                    loop {
+                        let renamed = fol::Predicate {
+                            symbol: format!("{}_{}", p.symbol, extension),
+                            arity: p.arity,
+                        };
+                        if !specification_private_predicates.contains(&renamed)
+                            && !program_private_predicates.contains(&renamed)
+                            && !public_predicates.contains(&renamed)
+                        {
+                            break;
+                        }
+                        extension.push('p');
+                    }
+                    (p.clone(), extension)
+                })
                 .collect(),
         );
 
